@@ -330,8 +330,9 @@ def pred_cols(p, out):
     else: raise TypeError(p)  # subquery preds are not allowed inside CASE in this prototype
 
 class Oracle:
-    def __init__(self):
+    def __init__(self, md=None):
         self.tables = set()   # base tables read
+        self.md = {k.lower(): [c.lower() for c in v] for k, v in (md or {}).items()}  # known table -> columns (metadata provider)
 
     # returns Rel for the query evaluated as a subquery named `name`
     def query(self, q, env, name, explicit_cols=None) -> Rel:
@@ -357,7 +358,7 @@ class Oracle:
         def add_item(f):
             if isinstance(f, T):
                 self.tables.add(tkey(f))
-                rel = Rel("table", tkey(f))
+                rel = Rel("table", tkey(f), self.md.get(tkey(f)))
                 names = {f.alias.lower()} if f.alias else set()
                 names |= {f.name.lower(), tkey(f)} if True else set()
                 scope.append((f, names, rel))
@@ -397,6 +398,9 @@ class Oracle:
             rels = [rel for _, _, rel in scope]
             uniq = {r.name: r for r in rels}
             if len(uniq) == 1: return ("cols", roots_of(rels[0], c.name.lower()))
+            # metadata refines: exactly the in-scope known tables that list the column; otherwise it stays unresolved
+            listing = [r for r in uniq.values() if r.kind == "table" and r.cols is not None and c.name.lower() in r.cols]
+            if listing: return ("cols", {("col", r.name, c.name.lower()) for r in listing})
             return ("cols", {("unres", c.name.lower(), tuple(sorted(uniq)))})
         cols = {}
         for idx, it in enumerate(q.items):
@@ -404,7 +408,9 @@ class Oracle:
             if isinstance(it.e, Star):
                 kind, rels = resolve(it.e)
                 for rel in rels:
-                    if rel.kind == "table": cols.setdefault("*", set()).add(("col", rel.name, "*"))
+                    if rel.kind == "table" and rel.cols is not None:  # known table: the star expands to exactly its columns
+                        for k in rel.cols: cols.setdefault(k, set()).add(("col", rel.name, k))
+                    elif rel.kind == "table": cols.setdefault("*", set()).add(("col", rel.name, "*"))
                     else:
                         known = [k for k in rel.cols if k != "*"]
                         if known:
@@ -435,8 +441,8 @@ def fmt_root(r):
     if r[0] == "col": return f"{r[1]}.{r[2]}"
     return f"{r[1]}?{'|'.join(r[2])}"
 
-def expected(stmt):
-    o = Oracle()
+def expected(stmt, md=None):
+    o = Oracle(md)
     env = {}
     tgt = None; cols = None; q = None
     if isinstance(stmt, CteInsert):
@@ -445,6 +451,12 @@ def expected(stmt):
     if isinstance(stmt, (Insert, CreateView)): tgt, cols, q = stmt.tgt, stmt.cols, stmt.q
     elif isinstance(stmt, Ctas): tgt, q = stmt.tgt, stmt.q
     elif isinstance(stmt, Bare): q = stmt.q
+    if md and isinstance(stmt, Insert) and not cols and tgt is not None and tkey(tgt) in o.md:
+        # INSERT without column list into a known target: its known columns name the positions (when the arity matches)
+        first = q
+        while not isinstance(first, Select): first = first.body if isinstance(first, With) else first.branches[0]
+        if len(first.items) == len(o.md[tkey(tgt)]) and not any(isinstance(i.e, Star) for i in first.items):
+            cols = tuple(o.md[tkey(tgt)])
     rel = o.query(q, env, "_top", list(cols) if cols else None)
     S = sorted(o.tables)
     Tt = [tkey(tgt)] if tgt else []
